@@ -482,6 +482,8 @@ def _tr_parts(quick):
         ("arrbv", lambda e: P.arr_profile(e, ("BV", 2), BOOL), 1, None),
         ("uf", P.uf_profile, 2, 3000 if quick else None),
         ("quant", P.quant_profile, 2, 4000 if quick else 40000),
+        # cross-theory terms (children of another theory below every operator)
+        ("mixed", lambda e: P.mixed_profile(e, quant=True), 2, 3000 if quick else 30000),
     ]
 
 
